@@ -66,7 +66,11 @@ class Repo:
     def ast(self, rel):
         if rel not in self._ast:
             try:
-                self._ast[rel] = ast.parse(self.text(rel), rel)
+                tree = ast.parse(self.text(rel), rel)
+                if rel.startswith(("dateparser/", "dateparser_scripts/")) and not rel.startswith("dateparser/data/"):
+                    from .normalize import normalize
+                    tree = normalize(tree)
+                self._ast[rel] = tree
             except SyntaxError as e:
                 raise AnalysisError("repo", "syntax error in %s: %s" % (rel, e))
         return self._ast[rel]
